@@ -440,6 +440,7 @@ where
 
         let name = self.rust_name(did);
 
+        // `name` is printed through `Symbol`'s Display, which escapes Rust keywords
         stream.push_str(&self.def_lit(&name, &c.lit, &mut ty).unwrap())
     }
 
